@@ -1,7 +1,8 @@
 /-
   Driver family `rdbsave` (C10).  Answers every op of family `rdb` (Drv/Rdb.lean) and in addition:
 
-    chunks <t> <dataset tokens>         -> <#calls> <chunk|chunk|…>          the `write_raw` calls of a save (RdbSave.cSnapshot)
+    chunks <t> <dataset tokens>         -> <#calls> <chunk|chunk|…>          the `write_raw` calls of a save (RdbSave.cSnapshot of the dataset
+                                                                              as the configured writer sees it: `Rdb.escDataset`, C09's escape rule)
     fsrun <exclusive 0|1> <old hex|none> <event>…
          events: `S <fail|-> <chunks>` (SAVE) | `B <fail|-> <chunks>` (BGSAVE) | `T <i>` (run i makes its next file operation)
                                         -> dump=<hex|none> tmp=<hex|none> flag=<0|1> procs=<n> log=<newest,…|.> nosavebg=<0|1>
@@ -74,7 +75,7 @@ def step (c : Cfg) (ws : List String) : Cfg × String :=
   | "chunks" :: t :: toks =>
     match t.toNat?, parseDataset (if toks == ["."] then [] else toks) [] with
     | some t, some d =>
-      let cs := cSnapshot c.ver d t
+      let cs := cSnapshot c.ver (escDataset c.escW d) t
       (c, s!"{cs.length} " ++ hexListFast cs)
     | _, _ => (c, "bad-op")
   | "fsrun" :: x :: old :: evs =>
@@ -117,6 +118,6 @@ def step (c : Cfg) (ws : List String) : Cfg × String :=
     | _, _ => (c, "bad-op")
   | _ => Ferrous.Drv.Rdb.step c ws
 
-def main : IO Unit := loop step ⟨[48, 46, 49, 46, 48], Fix.code⟩
+def main : IO Unit := loop step ⟨[48, 46, 49, 46, 48], Fix.code, false⟩
 
 end Ferrous.Drv.RdbSave
